@@ -680,6 +680,9 @@ def build_url(route: dict, w: World, rng, mode: str, query_names: list[str]) -> 
 
     path = route["path"]
     spec: dict[str, Any] = {"mode": mode, "path": {}, "query": {}}
+    full = mode == "full"          # "full": existing values for EVERY declared query parameter at once (filters combine)
+    if full:
+        mode = "existing"
     for m in re.finditer(r"\{(\w+)(?::\w+)?\}", route["path"]):
         p = m.group(1)
         kind = PATH_KIND.get(p)
@@ -701,7 +704,7 @@ def build_url(route: dict, w: World, rng, mode: str, query_names: list[str]) -> 
         path = path.replace(m.group(0), urllib.parse.quote(str(v), safe=""))
     q = {}
     for name in query_names:
-        if mode == "existing" and rng.random() < 0.5 and name not in ("limit", "log", "call_id_key"):
+        if mode == "existing" and not full and rng.random() < 0.5 and name not in ("limit", "log", "call_id_key"):
             continue  # defaults
         v = param_values(name, w, rng, mode)
         if v is None:
